@@ -107,13 +107,13 @@ Final(c) ==
   ELSE IF c.kind = "delete" /\ c.phase = "done" THEN
        (IF Snapshot(m) = Snapshot(MBatchDel(StartMap(c), exp.selected, 1)) THEN "" ELSE "delete-leaves-wrong-store")      \* C11
   ELSE IF c.kind = "put" THEN
-       (IF exp.evalfails THEN (IF nwrites = 0 /\ c.phase = "failed" THEN "" ELSE "failed-evaluation-not-all-or-nothing")
+       (IF exp.evalfails THEN (IF nwrites = 0 /\ c.phase \in {"failed", "rejected"} THEN "" ELSE "failed-evaluation-not-all-or-nothing")
         ELSE IF c.phase # "done" THEN "put-fails"
         ELSE IF nwrites # (IF Len(exp.writes) = 0 THEN 0 ELSE 1) THEN "write-not-issued-exactly-once"
         ELSE IF Snapshot(m) = Snapshot(MBatchPut(StartMap(c), [i \in 1..Len(exp.writes) |-> exp.writes[i].k], [i \in 1..Len(exp.writes) |-> exp.writes[i].v], 1))
              THEN "" ELSE "put-leaves-wrong-store")                                                                     \* C12
   ELSE IF c.kind = "remove" THEN
-       (IF exp.evalfails THEN (IF nwrites = 0 /\ c.phase = "failed" THEN "" ELSE "failed-evaluation-not-all-or-nothing")
+       (IF exp.evalfails THEN (IF nwrites = 0 /\ c.phase \in {"failed", "rejected"} THEN "" ELSE "failed-evaluation-not-all-or-nothing")
         ELSE IF c.phase # "done" THEN "remove-fails"
         ELSE IF nwrites # (IF Len(exp.selected) = 0 THEN 0 ELSE 1) THEN "write-not-issued-exactly-once"
         ELSE IF Snapshot(m) = Snapshot(MBatchDel(StartMap(c), exp.selected, 1)) THEN "" ELSE "remove-leaves-wrong-store")
